@@ -25,6 +25,7 @@ EXPLANATION = (
     "exception handlers map EVM errors to a reverted frame, internal errors to a stuck path and cheatcode "
     "failures to a path end. It does not decide that the produced terms denote EVM results (values)."
     ' Also evaluated here, because a reported end state contains storage, memory and code contents: the storage-model rules of C08 (decode siblings, load/store agreement, transient storage) and the code-read/decoding rules of C19 (instruction length over 256 opcodes, scanner/decoder stride, STOP beyond the end, zero-padded code slices).'
+    ' Round 5: a concretized chunk keeps its (start, length) window (R01.7); precomputed keccak tables (C08 R08.1) and fork-copy completeness (C20 R20.1) are evaluated here too.'
 )
 ASSUMPTIONS = [
     "EVM instruction table frozen in hsa/spec/evm_ops.py and hsa/spec/evm_sem.py (Yellow Paper + EIPs)",
